@@ -235,6 +235,14 @@ def run(ck):
         ps = paths(fn)
         if ps is None:
             return
+        # a counted variant that frames a window of the buffer through its plain sibling (flenp_buffer_encode(k, lpb, &w)):
+        # the sibling is looked into, so that the region it hands on is read in terms of the caller's buffer
+        sib = fn[:-2] if fn.endswith('_n') else None
+        if sib and not any(p.calls(callee) for p in ps) and any(p.calls(sib) for p in ps):
+            try:
+                ps = sym.Engine(u, sizeof=so, inline={'byte_buffer_rest', 'byte_buffer_avail', sib}, other_units=[ub]).paths(fn)
+            except (sym.Unsupported, sym.PathLimit) as e:
+                return ck.broken('C13.b', fn, cast.where(u.fn(fn)), 'path enumeration through %s: %s' % (sib, e))
         where = cast.where(u.fn(fn))
         bad = None
         ncall = 0
